@@ -37,7 +37,7 @@ def multi(name, sets, props, N=3, m=2, lets=(), **kw):
 DEFS = [
     # ---------------------------------------------------------------- C01: longest match, priority, rewinding
     flat('c01_rewind_simple', [R(cat(plus(c('a')), c('b'))), R(c('a')), R(cset('b', 'c'))], ['C01', 'C09'], N=4),
-    flat('c01_kw_ident', [R(s('if')), R(plus(cset(rng('a', 'z')))), R(c(' '), 'skip')], ['C01', 'C10'], N=3, m=2),
+    flat('c01_kw_ident', [R(s('if')), R(plus(cset(rng('a', 'z')))), R(c(' '), 'skip')], ['C01', 'C10'], N=2, m=2, Nt=3),
     flat('c01_nested_prefixes', [R(s('abab')), R(s('ab')), R(c('a')), R(c('b'))], ['C01'], N=4),
     # join reachable with and without an earlier accept + cycle (the shape behind the old update_backtracks defect)
     flat('c01_join_cycle', [R(c('c')), R(cat(cset(rng('a', 'd')), s('cc'))), R(cat(plus(cset(rng('a', 'd'))), s('ba'))), R(c('b'))],
@@ -125,8 +125,10 @@ DEFS = [
     ], ['C08', 'C03'], N=3, m=2),
 
     # ---------------------------------------------------------------- C10: action protocol
-    flat('c10_kinds', [R(c('s'), 'skip'), R(c('c'), 'continue'), R(c('r'), 'reset_continue'), R(c('t'), 'return'), R(c('k'), 'tok'),
-                       R(s('tt'), 'return')], ['C10'], N=2, m=3, Nt=3),
+    flat('c10_kinds_a', [R(c('s'), 'skip'), R(c('c'), 'continue'), R(c('t'), 'return'), R(s('tt'), 'return')], ['C10'], N=2, m=2, Nt=3),
+    flat('c10_kinds_b', [R(c('r'), 'reset_continue'), R(c('c'), 'continue'), R(c('k'), 'tok'), R(s('ck'), 'return')], ['C10'], N=2, m=2, Nt=3),
+    flat('c10_kinds_all', [R(c('s'), 'skip'), R(c('c'), 'continue'), R(c('r'), 'reset_continue'), R(c('t'), 'return'), R(c('k'), 'tok'),
+                           R(s('tt'), 'return')], ['C10'], N=2, m=3, tier='thorough', Nt=3),
     # a shorter candidate's saved position must not outlive the selection of a longer rule whose action continues
     flat('c10_stale_accept', [R(c('-'), 'return'), R(s('--'), 'continue'), R(c('b'), 'return')], ['C10', 'C03', 'C01'], N=2, m=2, Nt=3),
     flat('c10_stale_accept_tail', [R(c('-'), 'return'), R(s('--'), 'continue'), R(c('a'), 'return'), R(cat(cset('a', 'b'), c('x'), c('y')), 'return')],
@@ -136,11 +138,11 @@ DEFS = [
 DEFS += [
     # ---------------------------------------------------------------- C09: termination / progress only (no reference): next() returns within the unwinding bound
     flat('c09_eof_under_repetition', [R(plus(alt(c('\n'), EOF)), 'return'), R(plus(cset(rng('a', 'z'))), 'return')], ['C09'], N=3, m=1, form='termination', unwind=10),
-    flat('c09_string_or_skip', [R(cat(c('"'), star(diff(ANY, c('"'))), c('"')), 'return'), R(ANY, 'skip')], ['C09'], N=3, m=4, form='termination', unwind=16),
+    flat('c09_string_or_skip', [R(cat(c('"'), star(diff(ANY, c('"'))), c('"')), 'return'), R(ANY, 'skip')], ['C09'], N=2, m=3, form='termination', unwind=12, Nt=3),
     multi('c09_sets_continue', [
-        ('Init', [R(c('a'), 'switch', to='S'), R(ANY, 'continue')]),
-        ('S', [R(plus(c('s')), 'continue'), R(cat(c('s'), c('t')), 'switch_return', to='Init'), R(EOF, 'return')]),
-    ], ['C09'], N=3, m=4, form='termination', unwind=16),
+        ('Init', [R(c('a'), 'switch', to='S'), R(c('b'), 'return')]),
+        ('S', [R(c('s'), 'continue'), R(c('t'), 'switch_return', to='Init')]),
+    ], ['C09'], N=2, m=3, form='termination', unwind=9, Nt=3),
     # ---------------------------------------------------------------- C15: the lexer under test is a clone taken at a call boundary
     multi('c15_clone_sets', [
         ('Init', [R(c('a'), 'switch_return', to='S'), R(plus(cset(rng('x', 'z'))), 'return')]),
